@@ -25,7 +25,8 @@
      comb terms                              sum_t s_t basisV t;  bound_of eps terms = sum |s_t| eps_t *)
 From Coq Require Import List ZArith Bool Arith Lia Reals Lra.
 Import ListNotations.
-From PP Require Import Model.C11 Model.C13 Proofs.C11 Proofs.C13.
+From PP Require Import Model.C11 Model.C13 Model.C13_local Proofs.C11 Proofs.C13 Proofs.C11_inv
+     Proofs.C13_adm Proofs.C13_local.
 Local Open Scope R_scope.
 
 (* For ANY admissible interaction region (dimension d, m sub-cells, any sub-faces, weights
@@ -178,6 +179,64 @@ Theorem C13_every_field_2d :
     = ((b1, b2, 0), ((a11, a12, 0), (a21, a22, 0), (0, 0, 0))).
 Proof. exact comb_terms2. Qed.
 Print Assumptions C13_every_field_2d.
+
+(* The property's 3-D restriction implies the local admissibility condition: at a node v, let
+   neu be the Neumann boundary faces containing v and cell_of f the cell of boundary face f.
+   If two boundary faces of one cell that meet in v share an edge (cells that are simple
+   polytopes at their vertices: tetrahedra, hexahedra, prisms) and no two Neumann faces share
+   an edge, then there are at most as many Neumann sub-faces as sub-cells at v, i.e. the
+   averaged part of Hooke's law is kept (keep_asym = true, the guard of the theorems above). *)
+Theorem C13_edge_disjoint_admissible :
+  forall (share_edge : nat -> nat -> Prop) (cell_of : nat -> nat)
+         (F : Type) (neu cells : list nat) (faces : list (subfaceV F)),
+    NoDup neu ->
+    (forall f, In f neu -> In (cell_of f) cells) ->
+    (forall f g, In f neu -> In g neu -> f <> g -> cell_of f = cell_of g -> share_edge f g) ->
+    (forall f g, In f neu -> In g neu -> f <> g -> ~ share_edge f g) ->
+    length (filter (is_neuV F) faces) = length neu ->
+    keep_asym F (length cells) faces = true.
+Proof. exact edge_disjoint_admissible. Qed.
+Print Assumptions C13_edge_disjoint_admissible.
+
+(* Non-vacuity: a boundary-edge node of a hexahedral grid with the edge-disjoint Neumann
+   faces 0 and 3. *)
+Example C13_nonvacuous_admissible :
+  NoDup [0; 3]%nat /\
+  (forall f, In f [0; 3]%nat -> In (ex_cell_of f) [10; 11]%nat) /\
+  (forall f g, In f [0; 3]%nat -> In g [0; 3]%nat -> f <> g -> ex_cell_of f = ex_cell_of g -> ex_share f g) /\
+  (forall f g, In f [0; 3]%nat -> In g [0; 3]%nat -> f <> g -> ~ ex_share f g).
+Proof. exact example_admissible. Qed.
+
+(* Invertibility per instance (same statement as C11_local_unique_solution, used for the
+   MPSA local systems): an approximate left inverse with row defect q < 1 makes the solution
+   of the local system unique; Model.C11_inv.check_inv establishes the bound with q = 1/2 on
+   the captured MPSA matrices. *)
+Theorem C13_local_unique_solution :
+  forall (n : nat) (A B : nat -> nat -> R) (q : R),
+    q < 1 ->
+    (forall i, (i < n)%nat -> rsumn n (fun j => Rabs (prodBA n A B i j - idn i j)) <= q) ->
+    forall (r x y : nat -> R),
+      (forall i, (i < n)%nat -> mulv n A x i = r i) ->
+      (forall i, (i < n)%nat -> mulv n A y i = r i) ->
+      forall j, (j < n)%nat -> x j = y j.
+Proof. exact unique_solution. Qed.
+Print Assumptions C13_local_unique_solution.
+
+(* Certificate (ii) for MPSA, the link between model (A) and the code's local systems: for ANY
+   captured local matrix LA (gradient entry G_ij of a sub-cell in column i*nd + j of its
+   block) and right-hand side matrices (in the ST / BS slots of I), a bound on the residual
+   "LA (constant gradient of the field) - right-hand side built from the field" for basis
+   fields on row r bounds it for every linear combination — i.e. the hypothesis
+   C13_linear_solves_local holds on the ACTUAL rows (up to the band) once the run-time check
+   (Model.C13_local.check_localV: all rows except the Neumann rows) has established it for
+   the basis fields. *)
+Theorem C13_local_rows_linear_extension :
+  forall (I : instV R) (LA : coo R) (nd r : nat) (eps : nat -> R) (terms : list (R * nat)),
+    (forall st, In st terms -> Rabs (res_localV R RO I LA nd (rbasisV (snd st)) r) <= eps (snd st)) ->
+    Rabs (rrow_apply LA r (gstarV R (rcomb terms) nd) - rstress_of I (rcomb terms) r)
+    <= bound_of eps terms.
+Proof. exact local_rows_linear_extensionV. Qed.
+Print Assumptions C13_local_rows_linear_extension.
 
 (* Non-vacuity: a concrete 2-D boundary interaction region (two sub-cells, interior,
    Dirichlet and Neumann sub-face, mu = 1, lambda = 2, non-symmetric A) with an explicit
